@@ -92,7 +92,11 @@ def compose (vars : T → List Var) (P : Prims T) (c1 c2 : Contract T) (keep : L
   match P.elimRelax .relAll (Gen.list_union g1 g2) asm1 I.intvars simp ord with
   | .error e => .error e
   | .ok all =>
-    mkContract vars P asm1 (Gen.list_diff all (withVars vars all I.intvars)) I.inputvars I.outputvars
+    -- terms over internal variables are discarded; the operands' guarantees over interface variables are conjoined
+    let og := Gen.list_union c1.g c2.g
+    mkContract vars P asm1
+      (Gen.list_union (Gen.list_diff all (withVars vars all I.intvars)) (Gen.list_diff og (withVars vars og I.intvars)))
+      I.inputvars I.outputvars
 
 /-- `try: … except ValueError:` around a primitive: on failure keep `d`.  (`IncompatibleArgsError` is a
     `ValueError` too, so every model error is caught, as in Python.) -/
